@@ -20,10 +20,10 @@ import (
 const defaultLimit = 5 * 1024 * 1024
 
 type C12Case struct {
-	Limit    int64  `json:"limit"`    // MaximumDecompressedBodySize (0 = unset)
-	Size     int64  `json:"size"`     // inflated size of the payload
-	Payload  string `json:"payload"`  // "valid-padded" | "run" | "encrypted-bomb"
-	Kind     string `json:"kind"`     // response | LogoutRequest | LogoutResponse
+	Limit    int64  `json:"limit"`   // MaximumDecompressedBodySize (0 = unset)
+	Size     int64  `json:"size"`    // inflated size of the payload
+	Payload  string `json:"payload"` // "valid-padded" | "run" | "encrypted-bomb"
+	Kind     string `json:"kind"`    // response | LogoutRequest | LogoutResponse
 	Level    int    `json:"level"`
 	Relation string `json:"relation"` // L-1, L, L+1, 2L, 64L, 1000L, bomb
 }
@@ -292,8 +292,11 @@ func maxI64(a, b int64) int64 {
 	return b
 }
 
-func TestC12(t *testing.T)        { h.RunProp(t, "C12", genC12, checkC12) }
-func TestC12_Replay(t *testing.T) { h.RunReplay(t, "C12", checkC12); h.RunReplay(t, "C12.twin", checkC12Twin) }
+func TestC12(t *testing.T) { h.RunProp(t, "C12", genC12, checkC12) }
+func TestC12_Replay(t *testing.T) {
+	h.RunReplay(t, "C12", checkC12)
+	h.RunReplay(t, "C12.twin", checkC12Twin)
+}
 
 // TestC12_Grid: the exact boundary for every limit and entry point, plus the default limit and a bomb.
 func TestC12_Grid(t *testing.T) {
@@ -326,11 +329,11 @@ func TestC12_Grid(t *testing.T) {
 // ---- transparency on realistic accepted / rejected messages (C03, C10 generators) -----------------
 
 type C12Twin struct {
-	SP      h.SPConfig `json:"sp"`
-	Kind    string     `json:"kind"`
-	RawXML  string     `json:"rawXML"`
-	Level   int        `json:"level"`
-	Source  string     `json:"source"`
+	SP     h.SPConfig `json:"sp"`
+	Kind   string     `json:"kind"`
+	RawXML string     `json:"rawXML"`
+	Level  int        `json:"level"`
+	Source string     `json:"source"`
 }
 
 func genC12Twin(t *rapid.T) C12Twin {
